@@ -78,6 +78,23 @@ def exportCamera (c : Camera) : Except String ColmapCamera :=
 def importCamera (c : ColmapCamera) : Camera :=
   { model := (modelName? c.modelId).getD "SIMPLE_PINHOLE", params := c.width :: c.height :: c.params }
 
+/-- `add_cameras_to_database` (database_extra.py:327-351): one `cameras` row per camera, identifiers k, k+1, ... in
+  insertion order; a camera that cannot be converted aborts the export -/
+def exportCamerasFrom (k : Int) : List (String × Camera) → Except String (List (Int × ColmapCamera))
+  | [] => Except.ok []
+  | (_, c) :: r =>
+    match exportCamera c, exportCamerasFrom (k + 1) r with
+    | Except.ok cc, Except.ok rest => Except.ok ((k, cc) :: rest)
+    | Except.error e, _ => Except.error e
+    | _, Except.error e => Except.error e
+
+def exportCameras (cams : List (String × Camera)) : Except String (List (Int × ColmapCamera)) := exportCamerasFrom 1 cams
+
+/-- the `cameras` row with a given id -/
+def cameraRow? : List (Int × ColmapCamera) → Int → Option ColmapCamera
+  | [], _ => none
+  | (i, c) :: r, id => if i = id then some c else cameraRow? r id
+
 /-! ## identifier assignment -/
 
 /-- sqlite AUTOINCREMENT on an empty table: rows get k, k+1, ... in insertion order -/
@@ -119,6 +136,13 @@ def imageIds (records : List Record) : List (String × Int) := assignIds (imageO
 
 /-- `get_camera_kapture_id_from_colmap_id` is injective text formatting (`cam_%05d`); the model keeps the number -/
 def cameraIds (sensorIds : List String) : List (String × Int) := assignIds sensorIds
+
+/-- the camera an imported image points to: `images.camera_id` (database_extra.py:381-383) -> `cameras` row ->
+  kapture camera `cam_<id>` (import_colmap_database.py:41-49, 72-74) -/
+def imageCamera (camIds : List (String × Int)) (db : List (Int × ColmapCamera)) (sensor : String) : Option Camera :=
+  match idOf? camIds sensor with
+  | some i => (cameraRow? db i).map importCamera
+  | none => none
 
 /-! ## matches: pair id and column swap -/
 
